@@ -70,6 +70,11 @@ CHECKS["C15"] = dict(
     text="Bounded-exhaustive over bodies (n<=3 quick, 4 thorough; 15 statement kinds incl. plain/guarded/raising defers, return, four raise kinds, nested callees with own defers) x {function, method, literal call, under try, nested function}: defers once, in order, after the body, on every exit; raising defer replaces the outcome and stops the rest.",
     note=_EVN, design="§5 C15")
 
+CHECKS["C04"] = dict(
+    technique=_EV + "extended with one chain machine (scalar/list/reduce x none/lonely/thoughtful/strict, element sources, digest) shared by the three call forms; recorded runs of every context x form x element-behaviour pattern are validated against it by TLC (trace validation), and the three forms are compared with each other on the real side",
+    text="Bounded-exhaustive: 10 contexts x 3 call forms x arrays whose elements give value / nil / raise / are nil at every position (length <= 2 quick, 3 thorough), ints, ranges, objects, chain arguments, extra arguments, callee raising StopIterErr.",
+    note=_EVN + " String and iterator receivers are outside the element model.", design="§5 C04")
+
 NOT_YET = {}
 
 def main():
